@@ -829,6 +829,86 @@ def mkSolid (x : Bool × List (V3 Float) × List Tri × List (Aabb3 Float)) (pos
 def unitQ (m : Iso3 Float) : Bool :=
   let M := qiso3 m; nearR (M.qi * M.qi + M.qj * M.qj + M.qk * M.qk + M.qw * M.qw) 1
 
+
+/-! ### world-space / canonical-axis wrappers -/
+
+def fsegSplit1 : Split (Segment3 Float) → String
+  | .negative => "neg" | .positive => "pos" | .pair l r => s!"pair {fseg l} {fseg r}"
+
+/-- oracle for `Segment::canonical_split(axis, bias, eps)`, from the property with the exact `s(p) = p[axis] - bias`
+(computed without any normal vector): `neg` ⇒ both end points have `s ≤ eps` and are not both strictly positive; `pos` ⇒ both have
+`s ≥ -eps` and are not both strictly negative; end points farther than `eps` on opposite sides ⇒ `pair`; `pair l r` ⇒ the end points
+are not on the same side, `l`/`r` are `[a, I]`, `[I, b]` in side order (first = non-positive side) sharing one point `I` that lies on
+the plane and strictly between `a` and `b` on the segment (so the lengths add up). -/
+def segCanonOracle (a b : V3 Float) (axis : Fin 3) (bias eps : Float) (o : List String) : String :=
+  if !(finite3 a && finite3 b && FloatIO.isFinite bias && FloatIO.isFinite eps) then "skip nonfinite-input" else
+  let A := q3 a; let B := q3 b; let bi := q bias; let e := q eps
+  if e < 0 then "skip negative-epsilon" else
+  let sc := 1 + maxAbs3 A + maxAbs3 B + rabs bi
+  let t := tol * sc
+  let sa := A.get axis.val - bi; let sb := B.get axis.val - bi
+  let mustPair := (sa < -e - t && sb > e + t) || (sb < -e - t && sa > e + t)
+  match o with
+  | "panic" :: _ => "fail panic"
+  | ["neg"] =>
+    if mustPair then "fail negative-but-end-points-beyond-epsilon-on-both-sides" else
+    if sa > e + t || sb > e + t then s!"fail negative-but-end-point-beyond-epsilon sa={sa} sb={sb} eps={e}" else
+    if sa > t && sb > t then "fail negative-but-strictly-positive" else "pass"
+  | ["pos"] =>
+    if mustPair then "fail positive-but-end-points-beyond-epsilon-on-both-sides" else
+    if sa < -e - t || sb < -e - t then s!"fail positive-but-end-point-beyond-epsilon sa={sa} sb={sb} eps={e}" else
+    if sa < -t && sb < -t then "fail positive-but-strictly-negative" else "pass"
+  | "pair" :: rest =>
+    (match run (do let x ← pov3; let y ← pov3; let z ← pov3; let w ← pov3; pend; pure (x, y, z, w)) rest with
+     | none => "fail unparsable-output"
+     | some (x, y, z, w) =>
+       if !(finite3 x && finite3 y && finite3 z && finite3 w) then "fail nonfinite-output" else
+       let X := q3 x; let Y := q3 y; let Z := q3 z; let W := q3 w
+       if (sa > t && sb > t) || (sa < -t && sb < -t) then "fail pair-but-end-points-on-the-same-side" else
+       let aNeg := if rabs sa ≥ rabs sb then decide (sa < 0) else decide (sb > 0)
+       let I := if aNeg then Y else X
+       let okShape := if aNeg then eqV3 X A && eqV3 Z I && eqV3 W B else eqV3 Y B && eqV3 Z A && eqV3 W I
+       if !okShape then "fail pieces-are-not-[a,I],[I,b]-in-side-order" else
+       if rabs (I.get axis.val - bi) > t * 1000 then "fail intersection-off-plane" else
+       let D := B.sub A
+       if D.normSq == 0 then "fail pair-of-a-degenerate-segment" else
+       let T := (I.sub A).dot D / D.normSq
+       if !(0 < T && T < 1) then "fail intersection-parameter-outside-(0,1)" else
+       if !nearV3 I (A.add (D.smul T)) sc then "fail intersection-not-on-segment" else "pass")
+  | _ => "fail unparsable-output"
+
+/-- is `(la, lb)` the plane `{x | n·x = bias}` seen from the local frame of `M`? Judged by the definition, in exact arithmetic:
+the signed distances `la·p - lb` and `n·(M p) - bias` agree at the origin, the three basis points and every given point. -/
+def samePlane (M : Iso3 Rat) (N : V3 Rat) (bi : Rat) (LA : V3 Rat) (LB : Rat) (pts : List (V3 Rat)) (scale : Rat) : Bool :=
+  let probes : List (V3 Rat) := [⟨0, 0, 0⟩, ⟨1, 0, 0⟩, ⟨0, 1, 0⟩, ⟨0, 0, 1⟩] ++ pts
+  probes.all fun p => rabs ((LA.dot p - LB) - (N.dot (M.act p) - bi)) ≤ tol * (scale + maxAbs3 p)
+
+def planeVerdict (o : List String) : String :=
+  match o with
+  | "panic" :: _ => "fail panic"
+  | ["hang"] => "fail hang-or-unbounded-allocation"
+  | ["split:same", "section:same"] => "pass"
+  | [a, b] => if (a == "split:same" || a == "split:diff") && (b == "section:same" || b == "section:diff")
+              then s!"fail wrapper-differs-from-local-function-on-the-transformed-plane {a} {b}" else "fail unparsable-output"
+  | _ => "fail unparsable-output"
+
+def fverdict : Split Unit → String
+  | .negative => "neg" | .positive => "pos" | .pair _ _ => "cut"
+
+/-- oracle for the `Negative` / `Positive` / cut decision of a mesh cut (both the split and the section routine), from the exact
+signed distances `S` of the (placed) vertices: `neg` ⇒ no vertex beyond `eps` on the positive side and some vertex on the negative
+side; `pos` ⇒ no vertex beyond `eps` on the negative side; cut ⇒ vertices on both sides (all within the rounding tolerance). -/
+def verdictOracle (S : List Rat) (e t : Rat) (o : List String) : String :=
+  match o with
+  | "panic" :: _ => "fail panic"
+  | ["hang"] => "fail hang-or-unbounded-allocation"
+  | [k1, k2] =>
+    let one (k : String) : String :=
+      if k == "neg" || k == "pos" then verdictCheck S e t k else if k == "cut" then verdictCheck S e t "pair" else "fail unparsable-output"
+    let r := one k1
+    if r != "pass" then r else one k2
+  | _ => "fail unparsable-output"
+
 def handler (fn : String) : Option Handler :=
   match fn with
   | "aabb_split" => some {
@@ -905,7 +985,9 @@ def handler (fn : String) : Option Handler :=
           if q eps < 0 then "skip negative-epsilon" else
           if !nearR N.normSq 1 then "skip non-unit-normal" else
           if !nearR (M.qi * M.qi + M.qj * M.qj + M.qk * M.qk + M.qw * M.qw) 1 then "skip non-unit-quaternion" else
-          splitOracle m (fun p => N.dot (M.act p) - bi) none (q eps) (meshScale m bi + maxAbs3 M.t) o
+          -- Float colours are replayed on the model's local plane (tied to the code by `tm_plane_pos`)
+          let (la, lb) := planeToLocal pos n bias
+          splitOracle m (fun p => N.dot (M.act p) - bi) (some (colourFloat la lb eps)) (q eps) (meshScale m bi + maxAbs3 M.t) o
         | none => "skip bad-args" }
   | "tm_section" => some {
       model := fun _ => some "oracle-only"
@@ -916,6 +998,101 @@ def handler (fn : String) : Option Handler :=
           if q eps < 0 then "skip negative-epsilon" else
           if !nearR N.normSq 1 then "skip non-unit-normal" else
           sectionOracle m (fun p => N.dot p - bi) (some (colourFloat n bias eps)) (q eps) (meshScale m bi) o
+        | none => "skip bad-args" }
+  | "tm_verdict" => some {
+      model := fun a => run (do let m ← pmeshIn; let n ← pv3; let bias ← pf; let eps ← pf; pend
+                                let k := fverdict (meshVerdict m.pts n bias eps); pure s!"{k} {k}") a
+      oracle := fun a o => match run (do let m ← pmeshIn; let n ← pv3; let bias ← pf; let eps ← pf; pend; pure (m, n, bias, eps)) a with
+        | some (m, n, bias, eps) =>
+          if !(m.pts.all finite3 && finite3 n && FloatIO.isFinite bias && FloatIO.isFinite eps) then "skip nonfinite-input" else
+          let N := q3 n; let bi := q bias
+          if q eps < 0 then "skip negative-epsilon" else
+          if !nearR N.normSq 1 then "skip non-unit-normal" else
+          verdictOracle ((m.pts.map q3).map fun p => N.dot p - bi) (q eps) (tol * meshScale m bi) o
+        | none => "skip bad-args" }
+  | "tm_verdict_pos" => some {
+      model := fun a => run (do let m ← pmeshIn; let pos ← piso3; let n ← pv3; let bias ← pf; let eps ← pf; pend
+                                let k := fverdict (meshVerdictPos m.pts pos n bias eps); pure s!"{k} {k}") a
+      oracle := fun a o => match run (do let m ← pmeshIn; let pos ← piso3; let n ← pv3; let bias ← pf; let eps ← pf; pend; pure (m, pos, n, bias, eps)) a with
+        | some (m, pos, n, bias, eps) =>
+          if !(m.pts.all finite3 && finite3 n && finite3 pos.t && FloatIO.isFinite bias && FloatIO.isFinite eps) then "skip nonfinite-input" else
+          let N := q3 n; let bi := q bias; let M := qiso3 pos
+          if q eps < 0 then "skip negative-epsilon" else
+          if !nearR N.normSq 1 then "skip non-unit-normal" else
+          if !unitQ pos then "skip non-unit-quaternion" else
+          verdictOracle ((m.pts.map q3).map fun p => N.dot (M.act p) - bi) (q eps) (tol * (meshScale m bi + maxAbs3 M.t)) o
+        | none => "skip bad-args" }
+  | "tm_verdict_canon" => some {
+      model := fun a => run (do let m ← pmeshIn; let ax ← pnat; let bias ← pf; let eps ← pf; pend
+                                if h : ax < 3 then (let k := fverdict (meshVerdictCanonical m.pts ⟨ax, h⟩ bias eps); pure s!"{k} {k}") else pure "panic") a
+      oracle := fun a o => match run (do let m ← pmeshIn; let ax ← paxis; let bias ← pf; let eps ← pf; pend; pure (m, ax, bias, eps)) a with
+        | some (m, ax, bias, eps) =>
+          if !(m.pts.all finite3 && FloatIO.isFinite bias && FloatIO.isFinite eps) then "skip nonfinite-input" else
+          let bi := q bias
+          if q eps < 0 then "skip negative-epsilon" else
+          verdictOracle ((m.pts.map q3).map fun p => p.get ax.val - bi) (q eps) (tol * meshScale m bi) o
+        | none => "skip bad-args" }
+  | "seg_canon_split" => some {
+      model := fun a => run (do let p ← pv3; let p' ← pv3; let ax ← pnat; let bias ← pf; let eps ← pf
+                                if h : ax < 3 then pure (fsegSplit1 ((Segment3.mk p p').canonicalSplit ⟨ax, h⟩ bias eps)) else pure "panic") a
+      oracle := fun a o => match run (do let p ← pv3; let p' ← pv3; let ax ← paxis; let bias ← pf; let eps ← pf; pure (p, p', ax, bias, eps)) a with
+        | some (p, p', ax, bias, eps) => segCanonOracle p p' ax bias eps o
+        | none => "skip bad-args" }
+  | "tm_section_pos" => some {
+      model := fun _ => some "oracle-only"
+      oracle := fun a o => match run (do let m ← pmeshIn; let pos ← piso3; let n ← pv3; let bias ← pf; let eps ← pf; pend; pure (m, pos, n, bias, eps)) a with
+        | some (m, pos, n, bias, eps) =>
+          if !(m.pts.all finite3 && finite3 n && finite3 pos.t && FloatIO.isFinite bias && FloatIO.isFinite eps) then "skip nonfinite-input" else
+          let N := q3 n; let bi := q bias; let M := qiso3 pos
+          if q eps < 0 then "skip negative-epsilon" else
+          if !nearR N.normSq 1 then "skip non-unit-normal" else
+          if !unitQ pos then "skip non-unit-quaternion" else
+          -- the polyline is expressed in the mesh's local frame; it is judged against the *world* plane through the pose.
+          -- Float colours are replayed on the model's local plane (tied to the code by `tm_plane_pos`)
+          let (la, lb) := planeToLocal pos n bias
+          sectionOracle m (fun p => N.dot (M.act p) - bi) (some (colourFloat la lb eps)) (q eps) (meshScale m bi + maxAbs3 M.t) o
+        | none => "skip bad-args" }
+  | "tm_canon_split" => some {
+      model := fun _ => some "oracle-only"
+      oracle := fun a o => match run (do let m ← pmeshIn; let ax ← paxis; let bias ← pf; let eps ← pf; pend; pure (m, ax, bias, eps)) a with
+        | some (m, ax, bias, eps) =>
+          if !(m.pts.all finite3 && FloatIO.isFinite bias && FloatIO.isFinite eps) then "skip nonfinite-input" else
+          let bi := q bias
+          if q eps < 0 then "skip negative-epsilon" else
+          splitOracle m (fun p => p.get ax.val - bi) (some (colourFloat (ithAxis ax) bias eps)) (q eps) (meshScale m bi) o
+        | none => "skip bad-args" }
+  | "tm_canon_section" => some {
+      model := fun _ => some "oracle-only"
+      oracle := fun a o => match run (do let m ← pmeshIn; let ax ← paxis; let bias ← pf; let eps ← pf; pend; pure (m, ax, bias, eps)) a with
+        | some (m, ax, bias, eps) =>
+          if !(m.pts.all finite3 && FloatIO.isFinite bias && FloatIO.isFinite eps) then "skip nonfinite-input" else
+          let bi := q bias
+          if q eps < 0 then "skip negative-epsilon" else
+          sectionOracle m (fun p => p.get ax.val - bi) (some (colourFloat (ithAxis ax) bias eps)) (q eps) (meshScale m bi) o
+        | none => "skip bad-args" }
+  | "tm_plane_pos" => some {
+      model := fun a => run (do let _ ← pmeshIn; let pos ← piso3; let n ← pv3; let bias ← pf; let _ ← pf; let la ← pv3; let lb ← pf; pend
+                                let (la', lb') := planeToLocal pos n bias
+                                pure (if fv3 la' == fv3 la && ff lb' == ff lb then "split:same section:same" else s!"plane {fv3 la'} {ff lb'}")) a
+      oracle := fun a o => match run (do let m ← pmeshIn; let pos ← piso3; let n ← pv3; let bias ← pf; let eps ← pf; let la ← pv3; let lb ← pf; pend
+                                         pure (m, pos, n, bias, eps, la, lb)) a with
+        | some (m, pos, n, bias, _, la, lb) =>
+          if !(m.pts.all finite3 && finite3 n && finite3 pos.t && finite3 la && FloatIO.isFinite bias && FloatIO.isFinite lb) then "skip nonfinite-input" else
+          if !unitQ pos then "skip non-unit-quaternion" else
+          let M := qiso3 pos; let bi := q bias
+          if !samePlane M (q3 n) bi (q3 la) (q lb) (m.pts.map q3) (meshScale m bi + maxAbs3 M.t) then "fail transferred-plane-is-not-the-same-plane" else
+          planeVerdict o
+        | none => "skip bad-args" }
+  | "tm_plane_canon" => some {
+      model := fun a => run (do let _ ← pmeshIn; let ax ← pnat; let _ ← pf; let _ ← pf; let la ← pv3; pend
+                                if h : ax < 3 then pure (if fv3 (ithAxis (K := Float) ⟨ax, h⟩) == fv3 la then "split:same section:same" else s!"axis {fv3 (ithAxis (K := Float) ⟨ax, h⟩)}")
+                                else pure "panic") a
+      oracle := fun a o => match run (do let m ← pmeshIn; let ax ← paxis; let bias ← pf; let eps ← pf; let la ← pv3; pend; pure (m, ax, bias, eps, la)) a with
+        | some (m, ax, _, _, la) =>
+          if !(m.pts.all finite3 && finite3 la) then "skip nonfinite-input" else
+          let LA := q3 la
+          if !((List.range 3).all fun i => LA.get i == (if i == ax.val then 1 else 0)) then "fail local-axis-is-not-the-canonical-axis" else
+          planeVerdict o
         | none => "skip bad-args" }
   | "mesh_isect" => some {
       model := fun _ => some "oracle-only"
